@@ -262,6 +262,12 @@ def r2(P: Project, R: Report) -> None:
         if call_name(inner) in ("re.match", "re.fullmatch") and len(inner.args) == 2 and isinstance(inner.args[0], ast.Constant):
             pattern = inner.args[0].value
             ok_shape = ast.unparse(inner.args[1]) == vf.positional_params()[-1]
+        elif isinstance(inner.func, ast.Attribute) and inner.func.attr in ("match", "fullmatch") and isinstance(inner.func.value, ast.Name) and len(inner.args) == 1:
+            # a pattern compiled once at module level: `_VERSION_FORMAT = re.compile(r"…")` … `_VERSION_FORMAT.match(version)`
+            cv = P.module_assign(vf.module, inner.func.value.id)
+            if isinstance(cv, ast.Call) and call_name(cv) == "re.compile" and len(cv.args) == 1 and not cv.keywords and isinstance(cv.args[0], ast.Constant) and isinstance(cv.args[0].value, str):
+                pattern = cv.args[0].value
+                ok_shape = ast.unparse(inner.args[0]) == vf.positional_params()[-1]
     R.need(pattern is not None, f"validate_format is not `bool(re.match(<constant>, version))`: {pats[0][:80]}")
     R.ob("R2", "validate_format matches its parameter", ok_shape, vf.where, "the regex is not applied to the version parameter")
     parsed = list(sre.parse(pattern))
